@@ -48,6 +48,31 @@ macro_rules! c07_rem {
             }
         }
     };
+    ($name:ident, $L:ty, $I:ty, $Wd:ty; $B:expr) => {
+        #[kani::proof]
+        pub fn $name() {
+            let a: $I = kani::any();
+            let b: $I = $B;
+            kani::assume(b != 0);
+            let x = <$L>::from_bits(a);
+            let y = <$L>::from_bits(b);
+            let (aw, bw) = (a as $Wd, b as $Wd);
+            let r = aw % bw;
+            let re = aw.rem_euclid(bw);
+            kani::cover!(r != 0, "W:non-zero truncated remainder");
+            kani::cover!(re != 0, "W:non-zero remainder");
+            assert!((x % y).to_bits() as $Wd == r, "a % b = a - b*trunc(a/b)");
+            match x.checked_rem(y) {
+                Some(v) => assert!(v.to_bits() as $Wd == r, "checked_rem = Some(a % b)"),
+                None => assert!(false, "checked_rem is Some for a non-zero divisor"),
+            }
+            assert!(x.rem_euclid(y).to_bits() as $Wd == re, "rem_euclid is the unique r in [0,|b|) with (a-r)/b integer");
+            match x.checked_rem_euclid(y) {
+                Some(v) => assert!(v.to_bits() as $Wd == re, "checked_rem_euclid = Some(rem_euclid)"),
+                None => assert!(false, "checked_rem_euclid is Some for a non-zero divisor"),
+            }
+        }
+    };
 }
 
 /// Policy forms of a Euclidean quotient with the regions of the open known findings carved out.
@@ -114,6 +139,28 @@ macro_rules! c07_diveuc {
                 "div_euclid forms: q = Euclidean quotient, flag <=> q not representable, value q*2^f mod 2^W, None, saturation side");
         }
     };
+    ($name:ident, $L:ty, $I:ty, $Wd:ty, $F:expr; $B:expr) => {
+        #[kani::proof]
+        pub fn $name() {
+            let a: $I = kani::any();
+            let b: $I = $B;
+            kani::assume(b != 0);
+            let x = <$L>::from_bits(a);
+            let y = <$L>::from_bits(b);
+            let (aw, bw) = (a as $Wd, b as $Wd);
+            let q = aw.div_euclid(bw);
+            let r: $Wd = q << $F;
+            let t = (aw << $F) / bw;
+            let t_fits = t >= <$I>::MIN as $Wd && t <= <$I>::MAX as $Wd;
+            let one: $Wd = 1 << $F;
+            let corrected = aw % bw < 0;
+            let one_ok = !corrected || one <= <$I>::MAX as $Wd; // the operator form always builds from_num(1)
+            kani::cover!(q != 0 && aw % bw != 0, "W:non-zero quotient with remainder");
+            diveuc_policy!($L, $I, $Wd, r, t_fits, one_ok, x.overflowing_div_euclid(y), x.wrapping_div_euclid(y),
+                x.checked_div_euclid(y), x.saturating_div_euclid(y), x.div_euclid(y),
+                "div_euclid forms: q = Euclidean quotient, flag <=> q not representable, value q*2^f mod 2^W, None, saturation side");
+        }
+    };
 }
 
 /// fixed % integer, rem_euclid_int and forms
@@ -143,6 +190,31 @@ macro_rules! c07_remint {
             }
         }
     };
+    ($name:ident, $L:ty, $I:ty, $Wd:ty, $F:expr; $B:expr) => {
+        #[kani::proof]
+        pub fn $name() {
+            let a: $I = kani::any();
+            let n: $I = $B;
+            kani::assume(n != 0);
+            let x = <$L>::from_bits(a);
+            let aw = a as $Wd;
+            let nw: $Wd = (n as $Wd) << $F;
+            let r = aw % nw;
+            let re = aw.rem_euclid(nw);
+            kani::cover!(re != 0, "W:non-zero remainder");
+            assert!((x % n).to_bits() as $Wd == r, "a % n = a - n*trunc(a/n)");
+            match x.checked_rem_int(n) {
+                Some(v) => assert!(v.to_bits() as $Wd == r, "checked_rem_int = Some(a % n)"),
+                None => assert!(false, "checked_rem_int is Some for a non-zero divisor"),
+            }
+            let fits = policy!($L, $I, $Wd, re, x.overflowing_rem_euclid_int(n), x.wrapping_rem_euclid_int(n),
+                x.checked_rem_euclid_int(n),
+                "rem_euclid_int forms: r in [0,|n|), flag <=> r not representable, value mod 2^W, None");
+            if fits {
+                assert!(x.rem_euclid_int(n).to_bits() as $Wd == re, "rem_euclid_int = r when representable");
+            }
+        }
+    };
 }
 
 /// div_euclid_int and forms (no saturating form exists)
@@ -152,6 +224,30 @@ macro_rules! c07_diveucint {
         pub fn $name() {
             let a: $I = kani::any();
             let n: $I = kani::any();
+            kani::assume(n != 0);
+            let x = <$L>::from_bits(a);
+            let aw = a as $Wd;
+            let nw: $Wd = (n as $Wd) << $F;
+            let q = aw.div_euclid(nw);
+            let r: $Wd = q << $F;
+            let t = aw / (n as $Wd); // bits of trunc(a/n): always representable except min / -1
+            let t_fits = t >= <$I>::MIN as $Wd && t <= <$I>::MAX as $Wd;
+            let one: $Wd = 1 << $F;
+            let corrected = aw % nw < 0;
+            let one_ok = !corrected || one <= <$I>::MAX as $Wd; // the operator form always builds from_num(1)
+            kani::cover!(aw % nw != 0, "W:remainder present");
+            let fits = r >= <$I>::MIN as $Wd && r <= <$I>::MAX as $Wd;
+            let dummy_sat = if fits { <$L>::from_bits(r as $I) } else if r < 0 { <$L>::min_value() } else { <$L>::max_value() };
+            diveuc_policy!($L, $I, $Wd, r, t_fits, one_ok, x.overflowing_div_euclid_int(n), x.wrapping_div_euclid_int(n),
+                x.checked_div_euclid_int(n), dummy_sat, x.div_euclid_int(n),
+                "div_euclid_int forms: Euclidean quotient, flag <=> not representable, value q*2^f mod 2^W, None");
+        }
+    };
+    ($name:ident, $L:ty, $I:ty, $Wd:ty, $F:expr; $B:expr) => {
+        #[kani::proof]
+        pub fn $name() {
+            let a: $I = kani::any();
+            let n: $I = $B;
             kani::assume(n != 0);
             let x = <$L>::from_bits(a);
             let aw = a as $Wd;
